@@ -164,6 +164,8 @@ func runJob(self string, jobPath string, j *job) runResult {
 		rr.PanicMsg = fmt.Sprintf("exit %d, no result: %s", rr.Exit, tail(stderr, 400))
 	case rr.Child.CPUMillis > 20000:
 		rr.Class = "busy"
+	case rr.Child.NeededClose && !rr.Child.Sleeping:
+		rr.Class = "stall" // everything served, nobody sleeping or downloading, yet no end: wedged until Close()
 	case rr.Child.ClosedByPlan || rr.Child.NeededClose:
 		rr.Class = "closed"
 	case rr.Child.WaitErr == "end of stream":
@@ -210,6 +212,8 @@ func endClasses(rr *runResult, a *abstraction) []string {
 	switch rr.Class {
 	case "eos":
 		return []string{"OEOS"}
+	case "stall":
+		return []string{"OErr EBlocked"}
 	case "panic":
 		switch rr.PanicKind {
 		case "nil":
@@ -327,7 +331,25 @@ func recipeCause(r *Recipe) (container, cause string) {
 			}
 		}
 	}
+	many := false
+	for _, s := range r.Streams {
+		if s.Container != "fmp4" {
+			continue
+		}
+		for _, g := range s.Segments {
+			n := 0
+			for _, p := range g.Parts {
+				n += len(p.Tracks)
+			}
+			if n > 10 {
+				many = true
+			}
+		}
+	}
 	switch {
+	case many && !unsup && !zero:
+		cause = "more-than-10-part-tracks-per-segment"
+		container = "fmp4"
 	case unsup:
 		cause = "unsupported-codec"
 	case zero:
@@ -358,6 +380,8 @@ func signature(r *Recipe, rr *runResult) string {
 		return fmt.Sprintf("C13:%s:%s:hang", container, cause)
 	case "busy":
 		return fmt.Sprintf("C13:%s:%s:busy-loop", container, cause)
+	case "stall":
+		return fmt.Sprintf("C13:%s:%s:stall-until-close", container, cause)
 	}
 	return fmt.Sprintf("C13:%s:%s:%s", container, cause, rr.Class)
 }
@@ -717,6 +741,7 @@ func main() {
 	n := flag.Int("n", 0, "number of generated content recipes (0 = tier default)")
 	workers := flag.Int("workers", 12, "parallel children")
 	repo := flag.String("repo", "/repo", "repository (for the fuzz corpora)")
+	repairs := flag.String("repairs", "", "self-tests on scratch copies only: the proposed repairs the scratch tree contains (tracks,join)")
 	flag.Parse()
 	if *child != "" {
 		runChild(*child)
@@ -798,7 +823,7 @@ func main() {
 			jb, _ := json.Marshal(b.Job)
 			os.WriteFile(jp, jb, 0o644)
 			d.rr = runJob(self, jp, &b.Job)
-			if d.rr.Class == "hang" || d.rr.Class == "busy" {
+			if d.rr.Class == "hang" || d.rr.Class == "busy" || d.rr.Class == "stall" {
 				// a watchdog verdict must reproduce: 3 hangs out of 3
 				again := 1
 				for k := 0; k < 2; k++ {
@@ -834,7 +859,12 @@ func main() {
 	closeShard := func() {
 		if shard != nil {
 			fmt.Fprintln(shard, "].")
-			fmt.Fprintln(shard, "Definition M := Eval vm_compute in mismatches cases.")
+			if *repairs == "" {
+				fmt.Fprintln(shard, "Definition M := Eval vm_compute in mismatches cases.")
+			} else {
+				fmt.Fprintf(shard, "Definition M := Eval vm_compute in mismatches_for {| rep_tracks := %s; rep_join := %s |} cases.\n",
+					coqfmt.Bool(strings.Contains(*repairs, "tracks")), coqfmt.Bool(strings.Contains(*repairs, "join")))
+			}
 			fmt.Fprintln(shard, "Print M.")
 			shard.Close()
 			shard = nil
@@ -939,18 +969,35 @@ func main() {
 				What: fmt.Sprintf("the client did not finish within %d ms after Close() (class %s, 3 out of 3 runs); goroutines are in: %s",
 					rn.quickDL, d.rr.Class, strings.Join(where, " | ")),
 				Input: rj})
-		case "flaky-hang", "flaky-busy":
+		case "stall":
+			sig := signature(r, &d.rr)
+			if minimised["final:"+sig] {
+				break
+			}
+			minimised["final:"+sig] = true
+			failures = append(failures, failure{Signature: sig,
+				What: fmt.Sprintf("the client is wedged: the whole VOD stream was served, no goroutine is downloading or waiting for a sample's time, "+
+					"yet Wait() returned neither EOS nor an error within %d ms (3 out of 3 runs; it ended only when the harness called Close()); goroutines are parked in: %s",
+					rn.quickDL, strings.Join(d.rr.Child.BlockedIn, " | ")),
+				Input: rj})
+		case "flaky-hang", "flaky-busy", "flaky-stall":
 			// not reproduced 3 times: reported in the distribution only
 		case "closed":
 			if d.rr.Child != nil && d.rr.Child.AfterCloseMS > 4000 {
 				dist["close:slow(>4s)"]++
+			}
+			if d.rr.Child != nil && d.rr.Child.NeededClose {
+				dist["closed:needed-close:"+r.Kind]++
+				fmt.Fprintf(os.Stderr, "needed close: %s\n", rj)
+			} else {
+				dist["closed:by-plan"]++
 			}
 		}
 
 		// the model comparison: content recipes with at most one fault, no planned Close,
 		// a primary playlist that parses
 		compare := r.Kind == "content" && r.CloseAt < 0 && d.abs != nil && d.abs.PrimaryErr == "" &&
-			(d.rr.Class == "eos" || d.rr.Class == "err" || d.rr.Class == "panic")
+			(d.rr.Class == "eos" || d.rr.Class == "err" || d.rr.Class == "panic" || d.rr.Class == "stall")
 		if compare {
 			if shard == nil || inShard >= shardSize {
 				closeShard()
